@@ -185,7 +185,7 @@ fn layout_case() -> impl Strategy<Value = LayoutCase> {
 fn table_case() -> impl Strategy<Value = TableCase> {
     (
         any::<bool>(),
-        prop::collection::vec(0u8..CUSTOM_N as u8, 0..CUSTOM_N),
+        prop::collection::vec(0u8..CUSTOM_N as u8, 0..CUSTOM_N + 1),
         any::<u16>(),
         prop::collection::vec(0u8..4, 8),
     )
@@ -506,7 +506,10 @@ fn check_layout(case: &LayoutCase) -> Result<CaseInfo, Failure> {
 // ---------------------------------------------------------------------------------------------
 // Tables
 
-const CUSTOM_N: usize = 8;
+const CUSTOM_N: usize = 11;
+
+/// User types whose names contain characters JSON must escape.
+pub struct Sep<const C: char>;
 
 macro_rules! with_custom_type {
     ($idx:expr, $t:ident => $body:expr) => {
@@ -518,7 +521,10 @@ macro_rules! with_custom_type {
             4 => { type $t = Result<u8, String>; $body }
             5 => { type $t = [u8; 11]; $body }
             6 => { type $t = ((),); $body }
-            _ => { type $t = Option<Box<u64>>; $body }
+            7 => { type $t = Option<Box<u64>>; $body }
+            8 => { type $t = Sep<'\t'>; $body }
+            9 => { type $t = Sep<'"'>; $body }
+            _ => { type $t = Vec<Sep<'\\'>>; $body }
         }
     };
 }
@@ -704,6 +710,32 @@ fn check_table(case: &TableCase) -> Result<CaseInfo, Failure> {
                         format!("{}: key {:?}: original answers {:?}, table read back answers {:?}", what, k, a.ok(), b.ok()),
                     ))
                 }
+            }
+        }
+    }
+    // a table loaded from a map whose keys are aliases: the answer is the registered entry, not the key
+    {
+        let mut map: BTreeMap<String, DynamicTypeInfo> = BTreeMap::new();
+        let aliases = [("int", "i64", 8usize, 8usize, true), ("text", "String", 12, 4, false), ("tags", "Vec < String >", 12, 4, false), ("id", "[u8 ; 16]", 16, 1, true)];
+        for (key, name, size, align, uninit) in aliases {
+            map.insert(key.to_string(), DynamicTypeInfo { info: TypeInfo { name: name.to_string(), size, align }, allow_uninit: uninit });
+        }
+        let table = StaticTypeResolver::from(map);
+        let json = table.to_json_string().map_err(|e| Failure::new("json-roundtrip-failed", e.to_string()))?;
+        let back: BTreeMap<String, DynamicTypeInfo> = serde_json::from_str(&json).map_err(|e| Failure::new("json-roundtrip-failed", e.to_string()))?;
+        let back = StaticTypeResolver::from(back);
+        for t in [&table, &back] {
+            for (key, name, size, align, uninit) in aliases {
+                let spelled = respell(key, &case.spaces);
+                let d = catch_unwind(AssertUnwindSafe(|| t.dynamic_type_info(&spelled)))
+                    .map_err(|e| Failure::new("lookup-panicked", format!("dynamic lookup of alias {:?}: {}", key, panic_message(e))))?;
+                if d.info.name != name || d.info.size != size || d.info.align != align || d.allow_uninit != uninit {
+                    return Err(Failure::new(
+                        "table-answer-differs",
+                        format!("table entry registered under the key {:?} as ({}, size {}, align {}, uninit {}) is answered as {:?}", key, name, size, align, uninit, d),
+                    ));
+                }
+                checked.set(checked.get() + 1);
             }
         }
     }
